@@ -183,6 +183,11 @@ ASSUME PrintT("CFG " \o ToJson(Configs))
 \* each of these packagings (containers and one-shot iterables) denote the same Coxeter group
 DiagramContainers == {"list", "tuple", "generator", "zip", "iterator", "map"}
 ASSUME PrintT("DGC " \o ToJson(DiagramContainers))
+\* labels are integers; handing them over as floats with the same (integral) values denotes the same group.
+\* A CoxeterGroup object is immutable: every query (bilinear_form, every representation) may be repeated
+\* in any order on one object with the same result, and leaves coxeter_matrix and the caller's input alone.
+LabelTypes == {"int", "float"}
+ASSUME PrintT("LBT " \o ToJson(LabelTypes))
 
 \* hyperbolic triangle groups: vertex i has interior angle pi/label, ideal iff the label is 0
 HypTriples == {t \in TriLabels \X TriLabels \X TriLabels : TriType(t[1], t[2], t[3]) = "hyperbolic"}
